@@ -2659,7 +2659,8 @@ class TLSConnection(TLSRecordLayer):
         # Create the session object
         self.session = Session()
         if cipherSuite in CipherSuite.certAllSuites or \
-                cipherSuite in CipherSuite.ecdheEcdsaSuites:
+                cipherSuite in CipherSuite.ecdheEcdsaSuites or \
+                cipherSuite in CipherSuite.dheDsaSuites:
             serverCertChain = cert_chain
         else:
             serverCertChain = None
